@@ -12,7 +12,9 @@ import sys
 import tempfile
 import time
 
-from vf.common import PYTHON, REPO, REPO_SRC, VERIF, DEPS, jsonable, load_json
+from vf.common import PYTHON, REPO, REPO_SRC, VERIF, DEPS, CpuTimeout, cpu_limit, jsonable, load_json
+
+REPLAY_CPU_BUDGET = 120  # CPU-seconds for replaying one recorded witness in the runner process (normally milliseconds)
 
 KNOWN = os.path.join(VERIF, "known_findings.json")
 
@@ -55,7 +57,16 @@ def do_replay(prop, mod, path):
 
     import_sansldap()
     rec = load_json(path)
-    found = mod.replay(unjson(rec["witness"]))
+    w = unjson(rec["witness"])
+    if isinstance(w, dict) and w.get("shard_case"):
+        # a case that did not return: re-run that shard (same seed, same hash seed) and see whether it happens again
+        tier, seed, shard, nshards, _n = w["shard_case"]
+        out = os.path.join(tempfile.mkdtemp(prefix="vf-replay-"), "s.json")
+        subprocess.run([PYTHON, "-m", "vf.worker", prop, tier, str(seed), str(shard), str(nshards), out], env=_env(shard_hashseed(int(seed), int(shard))), cwd=VERIF, timeout=7200)
+        res = load_json(out) if os.path.exists(out) else {}
+        found = [(v["key"], v["what"]) for v in res.get("violations", []) if v["key"] == rec["key"]]
+    else:
+        found = mod.replay(w)
     if found:
         for key, what in found:
             print(f"replay: {key}: {what}")
@@ -186,7 +197,10 @@ def main(argv=None):
         import_sansldap()
         for key, e in open_keys.items():
             try:
-                found = mod.replay(unjson(e["witness"]))
+                with cpu_limit(REPLAY_CPU_BUDGET):
+                    found = mod.replay(unjson(e["witness"]))
+            except CpuTimeout:
+                found = [(f"{key}:recorded-witness-does-not-return", f"replaying the recorded witness of known finding {key} did not return within {REPLAY_CPU_BUDGET} CPU-seconds")]
             except Exception as ex:  # replay machinery problem: report, do not suppress anything
                 found = []
                 problems.append(f"known finding {key}: replay raised {type(ex).__name__}: {ex}")
@@ -207,7 +221,11 @@ def main(argv=None):
 
         import_sansldap()
         try:
-            found = mod.replay(unjson(e["witness"]))
+            with cpu_limit(REPLAY_CPU_BUDGET):
+                found = mod.replay(unjson(e["witness"]))
+            regress += 1
+        except CpuTimeout:
+            found = [(f"{e['key']}:recorded-witness-does-not-return", f"replaying the witness of the repaired finding {e['key']} did not return within {REPLAY_CPU_BUDGET} CPU-seconds")]
             regress += 1
         except Exception as ex:
             problems.append(f"fixed finding {e['key']}: replay raised {type(ex).__name__}: {ex}")
